@@ -106,16 +106,113 @@ pub fn has_dense_union(t: &DataType) -> bool {
 pub fn schema_has_dense_union(s: &Schema) -> bool {
     s.fields().iter().any(|f| has_dense_union(f.data_type()))
 }
-/// some column (or struct child) is a zero-length run-end array over non-empty runs (a zero-length slice)
-pub fn has_empty_ree_slice(b: &RecordBatch) -> bool {
-    fn go(d: &ArrayData) -> bool {
-        match d.data_type() {
-            DataType::RunEndEncoded(_, _) => d.len() == 0 && !d.child_data()[0].is_empty(),
-            DataType::Struct(_) => d.child_data().iter().any(go),
+/// what the writer's slicing code will meet in this batch:
+///  ree0: a run-end array of which zero rows are written although it has runs (a zero-length slice, also as
+///        the child of empty lists);
+///  uoff: a union array below a list / large list / map whose child range does not start at 0 or does not
+///        cover the whole child (the writer slices the child's ArrayData, giving the union a non-zero
+///        offset / a shorter length)
+#[derive(Default, Clone, Copy)]
+pub struct BatchFlags {
+    pub ree0: bool,
+    pub uoff: bool,
+}
+
+pub fn batch_flags(b: &RecordBatch) -> BatchFlags {
+    fn go(a: &ArrayRef, eff_len: usize, under: bool, f: &mut BatchFlags) {
+        use DataType::*;
+        fn range<O: arrow_array::OffsetSizeTrait>(offs: &[O]) -> (usize, usize) {
+            (offs[0].as_usize(), offs[offs.len() - 1].as_usize())
+        }
+        let mut listy = |values: &ArrayRef, first: usize, last: usize, f: &mut BatchFlags| {
+            let sliced = first != 0 || last != values.len();
+            go(values, last - first, under || sliced, f);
+        };
+        match a.data_type() {
+            RunEndEncoded(_, _) => {
+                let d = a.to_data();
+                if eff_len == 0 && !d.child_data()[0].is_empty() {
+                    f.ree0 = true;
+                }
+                go(&make_array(d.child_data()[1].clone()), d.child_data()[1].len(), false, f);
+            }
+            Union(fields, mode) => {
+                if under {
+                    f.uoff = true;
+                }
+                let u = a.as_union();
+                for (id, _) in fields.iter() {
+                    let c = u.child(id);
+                    let n = if *mode == arrow_schema::UnionMode::Sparse { eff_len } else { c.len() };
+                    go(c, n, under, f);
+                }
+            }
+            List(_) => {
+                let l = a.as_list::<i32>();
+                let (x, y) = range(l.value_offsets());
+                listy(l.values(), x, y, f)
+            }
+            LargeList(_) => {
+                let l = a.as_list::<i64>();
+                let (x, y) = range(l.value_offsets());
+                listy(l.values(), x, y, f)
+            }
+            Map(_, _) => {
+                let m = a.as_map();
+                let (x, y) = range(m.value_offsets());
+                let e: ArrayRef = Arc::new(m.entries().clone());
+                listy(&e, x, y, f)
+            }
+            FixedSizeList(_, n) => go(a.as_fixed_size_list().values(), eff_len * (*n as usize), under, f),
+            ListView(_) => go(a.as_list_view::<i32>().values(), a.as_list_view::<i32>().values().len(), under, f),
+            LargeListView(_) => go(a.as_list_view::<i64>().values(), a.as_list_view::<i64>().values().len(), under, f),
+            Struct(_) => a.as_struct().columns().iter().for_each(|c| go(c, eff_len, under, f)),
+            Dictionary(_, _) => {
+                let v = a.as_any_dictionary().values().clone();
+                go(&v, v.len(), false, f)
+            }
+            _ => {}
+        }
+    }
+    let mut f = BatchFlags::default();
+    for c in b.columns() {
+        go(c, c.len(), false, &mut f);
+    }
+    f
+}
+
+/// the schema has a run-end type below a list / large list / map (at any depth)
+pub fn schema_has_ree_in_list(s: &Schema) -> bool {
+    fn go(t: &DataType, under: bool) -> bool {
+        use DataType::*;
+        match t {
+            RunEndEncoded(_, v) => under || go(v.data_type(), under),
+            Union(fs, _) => fs.iter().any(|(_, f)| go(f.data_type(), under)),
+            List(f) | LargeList(f) | Map(f, _) => go(f.data_type(), true),
+            FixedSizeList(f, _) | ListView(f) | LargeListView(f) => go(f.data_type(), under),
+            Struct(fs) => fs.iter().any(|f| go(f.data_type(), under)),
+            Dictionary(_, v) => go(v, false),
             _ => false,
         }
     }
-    b.columns().iter().any(|c| go(&c.to_data()))
+    s.fields().iter().any(|f| go(f.data_type(), false))
+}
+
+/// the schema has a union type below a list / large list / map (at any depth)
+pub fn schema_has_union_in_list(s: &Schema) -> bool {
+    fn go(t: &DataType, under: bool) -> bool {
+        use DataType::*;
+        match t {
+            Union(fs, _) => under || fs.iter().any(|(_, f)| go(f.data_type(), under)),
+            List(f) | LargeList(f) | Map(f, _) => go(f.data_type(), true),
+            FixedSizeList(f, _) | ListView(f) | LargeListView(f) => go(f.data_type(), under),
+            Struct(fs) => fs.iter().any(|f| go(f.data_type(), under)),
+            Dictionary(_, v) => go(v, false),
+            RunEndEncoded(_, v) => go(v.data_type(), false),
+            _ => false,
+        }
+    }
+    s.fields().iter().any(|f| go(f.data_type(), false))
 }
 pub fn schema_has_ree(s: &Schema) -> bool {
     s.fields().iter().any(|f| has_ree(f.data_type()))
